@@ -24,8 +24,9 @@ Reduced(E) == \A c \in Class : \A j, k \in Direct(E, c) : k # j => j \notin AncO
 
 Tuples == [1..AR -> Class]
 AcceptableDefs(E, vp) == {t \in Tuples : \A i \in 1..AR : vp[i] \in AncOf(E, t[i])}
-KS(j, S) == IF j > Cardinality(S) THEN {} ELSE kSubset(j, S)
-UpTo(S, k) == UNION {KS(j, S) : j \in 0..k}
+(* all subsets of S with at most k elements (kSubset of the CommunityModules is limited to 62 elements) *)
+RECURSIVE UpTo(_, _)
+UpTo(S, k) == IF k = 0 THEN {{}} ELSE LET R == UpTo(S, k - 1) IN R \cup {T \cup {x} : T \in R, x \in S}
 
 Init ==
     /\ edges \in {E \in SUBSET PossibleEdges : Reduced(E)}
